@@ -1,3 +1,327 @@
-pub fn run(_cli: common::Cli) -> ! {
-    common::machinery("not built yet")
+//! C01: only an authenticated identity is ever admitted.
+//!
+//! Explicit-state exploration over scripts: the full product of handshake intent x encryption
+//! response x authentication verdict x routing x secret configuration, each run against the
+//! real `Connection` and compared with a reference admission model.
+use crate::sim::*;
+use crate::util::*;
+use common::refs::codec::Pkt;
+use common::{Cli, Report, Violation, par_for};
+use serde::{Deserialize, Serialize};
+use serde_json::{Value, json};
+use std::collections::HashSet;
+use std::sync::Mutex;
+use std::sync::atomic::{AtomicU64, Ordering};
+
+const COOKIE_SECRET: &[u8] = b"c01-cookie-secret";
+const CK_NAME: &str = "Cookie_Holder";
+const CK_UUID: u128 = 0x0987_9557_e479_45a9_b434_a56377674627;
+
+#[derive(Clone, Debug, Serialize, Deserialize, PartialEq)]
+pub struct Spec {
+    /// login | transfer-nosecret | transfer-nocookie | transfer-cookie | login-secret
+    intent: String,
+    /// honest | wrong-token | stale-token | other-key | garbage-N | secret-len-N | secret-garbage | token-garbage | token-prefix-N | token-extended-N
+    enc: String,
+    /// claim | other-name | other-uuid | props-1 | props-2 | all-differ | err
+    verdict: String,
+    routing: bool,
+    /// claimed identity shape: ascii | unicode | nil-uuid
+    claim: String,
+}
+
+fn claim_of(s: &Spec) -> (String, u128) {
+    match s.claim.as_str() {
+        "unicode" => ("Zoë_ß😀".to_string(), 0x1111_2222_3333_4444_5555_6666_7777_8888),
+        "nil-uuid" => ("Nil".to_string(), 0),
+        _ => (NAME1.to_string(), UUID1),
+    }
+}
+
+fn props(n: usize) -> Vec<Prop> {
+    let all = vec![
+        Prop { name: "textures".into(), value: "dGV4dHVyZXM=".into(), signature: Some("c2ln".into()) },
+        Prop { name: "extra".into(), value: "ZXh0cmE=".into(), signature: None },
+    ];
+    all[..n].to_vec()
+}
+
+fn verdict_of(s: &Spec) -> AuthPlan {
+    let (cn, cu) = claim_of(s);
+    match s.verdict.as_str() {
+        "claim" => AuthPlan::Profile { name: cn, uuid: cu, props: vec![] },
+        "other-name" => AuthPlan::Profile { name: "Real_Name".into(), uuid: cu, props: vec![] },
+        "other-uuid" => AuthPlan::Profile { name: cn, uuid: 0xaaaa_bbbb_cccc_4ddd_8eee_ffff_0000_1111, props: vec![] },
+        "props-1" => AuthPlan::Profile { name: cn, uuid: cu, props: props(1) },
+        "props-2" => AuthPlan::Profile { name: cn, uuid: cu, props: props(2) },
+        "all-differ" => AuthPlan::Profile { name: "Vouched".into(), uuid: 0x0123_4567_89ab_4cde_8f01_2345_6789_abcd, props: props(2) },
+        _ => AuthPlan::Err,
+    }
+}
+
+fn enc_of(s: &Spec, stale: &[u8]) -> EncKind {
+    let num = |p: &str| s.enc.strip_prefix(p).and_then(|n| n.parse::<usize>().ok());
+    match s.enc.as_str() {
+        "honest" => EncKind::Honest,
+        "wrong-token" => EncKind::WrongToken,
+        "stale-token" => EncKind::Token(stale.to_vec()),
+        "other-key" => EncKind::OtherKey,
+        "secret-garbage" => EncKind::SecretGarbage,
+        "token-garbage" => EncKind::TokenGarbage,
+        e if e.starts_with("garbage-") => EncKind::Garbage(num("garbage-").unwrap()),
+        e if e.starts_with("secret-len-") => EncKind::SecretLen(num("secret-len-").unwrap()),
+        e if e.starts_with("token-prefix-") => EncKind::TokenPrefix(num("token-prefix-").unwrap()),
+        e if e.starts_with("token-extended-") => EncKind::TokenExtended(num("token-extended-").unwrap()),
+        other => common::machinery(&format!("unknown enc kind {other}")),
+    }
+}
+
+fn build(s: &Spec, stale: &[u8]) -> Case {
+    let (cn, cu) = claim_of(s);
+    let mut case = Case::default();
+    let secret_cfg = matches!(s.intent.as_str(), "transfer-nocookie" | "transfer-cookie" | "login-secret");
+    case.cfg.auth_secret = secret_cfg.then(|| COOKIE_SECRET.to_vec());
+    let mut login = Login { name: cn, uuid: cu, enc: enc_of(s, stale), ..Default::default() };
+    login.intent = if s.intent.starts_with("transfer") { 3 } else { 2 };
+    login.auth_cookie = match s.intent.as_str() {
+        "transfer-nocookie" => Some(None),
+        "transfer-cookie" => Some(Some(valid_cookie(COOKIE_SECRET, 5, &case.cfg.client_addr.to_string(), CK_NAME, CK_UUID, &props(1)))),
+        _ => None,
+    };
+    case.script = login.steps();
+    case.adapters.auth = verdict_of(s);
+    case.adapters.disc = DiscPlan::Targets(if s.routing { vec![TargetSpec::new("t1", "10.1.2.3:25565")] } else { vec![] });
+    case.horizon_ms = 60_000;
+    case
+}
+
+/// (name, uuid, props) the connection must use, or None if nothing may be granted
+fn expected_identity(s: &Spec) -> Option<(String, u128, Vec<Prop>)> {
+    if s.enc != "honest" {
+        return None;
+    }
+    if s.intent == "transfer-cookie" {
+        return Some((CK_NAME.to_string(), CK_UUID, props(1)));
+    }
+    match verdict_of(s) {
+        AuthPlan::Profile { name, uuid, props } => Some((name, uuid, props)),
+        _ => None,
+    }
+}
+
+fn judge(s: &Spec, case: &Case, obs: &Obs) -> Vec<(String, String)> {
+    let mut v: Vec<(String, String)> = vec![];
+    let mut bad = |k: &str, t: String| v.push((k.to_string(), t));
+    if let RunResult::Panic(p) = &obs.result {
+        bad("panic", p.clone());
+        return v;
+    }
+    if obs.garbled.is_some() || obs.has("Unknown") {
+        bad("undecodable-clientbound", format!("{:?} {:?}", obs.garbled, obs.kinds()));
+    }
+    let (cn, cu) = claim_of(s);
+    let auth_calls: Vec<&Call> = obs.calls.iter().filter(|c| c.kind() == "authenticate").collect();
+    let routing_calls: Vec<&Call> = obs.calls.iter().filter(|c| matches!(c.kind(), "filter" | "select")).collect();
+    match expected_identity(s) {
+        None => {
+            for k in ["LoginSuccess", "StoreCookie", "Transfer"] {
+                if obs.has(k) {
+                    bad(&format!("granted-without-authentication:{k}"), format!("{k} was sent although nothing vouches for the client; packets {:?}", obs.kinds()));
+                }
+            }
+            if !obs.result.is_err() {
+                bad("unauthenticated-connection-did-not-end", format!("listen() returned {}", obs.result.kind()));
+            }
+            if !routing_calls.is_empty() {
+                bad("routing-without-authentication", "filter/strategy consulted for an unauthenticated connection".into());
+            }
+        }
+        Some((name, uuid, props)) => {
+            match obs.find("LoginSuccess") {
+                Some(Pkt::LoginSuccess { uuid: u, name: n, .. }) => {
+                    if *u != uuid || *n != name {
+                        let which = if *u == cu && *n == cn { "claimed-identity" } else { "other-identity" };
+                        bad(&format!("login-success-identity:{which}"), format!("Login Success for ({n}, {u:032x}) but the vouched identity is ({name}, {uuid:032x})"));
+                    }
+                }
+                _ => bad("authenticated-client-not-admitted", format!("no Login Success; result {:?}; packets {:?}", obs.result, obs.kinds())),
+            }
+            // Login Success must be the first ciphertext on the wire
+            if let Some(at) = obs.enc_switch_at {
+                let plain = common::refs::codec::frame(0x02, &common::refs::codec::W::new().u128(uuid).string(&name).varint(0).done());
+                if obs.raw_wire.len() >= at + plain.len() && obs.raw_wire[at..at + plain.len()] == plain[..] {
+                    bad("login-success-not-encrypted", "Login Success went out in plaintext".into());
+                }
+            }
+            for c in &routing_calls {
+                let (n, u) = match c {
+                    Call::Filter { name, uuid, .. } | Call::Select { name, uuid, .. } => (name, uuid),
+                    _ => unreachable!(),
+                };
+                if *u != uuid || *n != name {
+                    let which = if *u == cu && *n == cn { "claimed-identity" } else { "other-identity" };
+                    bad(&format!("routing-identity:{}:{which}", c.kind()), format!("{} was asked about ({n}, {u:032x}) but the vouched identity is ({name}, {uuid:032x})", c.kind()));
+                }
+            }
+            if s.routing && routing_calls.len() != 2 {
+                bad("routing-not-consulted", format!("calls {:?}", obs.calls.iter().map(|c| c.kind()).collect::<Vec<_>>()));
+            }
+            // adapter consulted exactly when no cookie vouches
+            let want_calls = if s.intent == "transfer-cookie" { 0 } else { 1 };
+            if auth_calls.len() != want_calls {
+                bad("authentication-call-count", format!("authentication service called {} times, expected {want_calls}", auth_calls.len()));
+            }
+            // issued cookie carries the vouched identity
+            for (_, p) in &obs.packets {
+                if let Pkt::StoreCookie { key, payload } = p {
+                    if key == "passage:authentication" {
+                        let (ok, body) = open_cookie(payload, COOKIE_SECRET);
+                        let body = body.unwrap_or(Value::Null);
+                        let bn = body["user_name"].as_str().unwrap_or("");
+                        let bu = body["user_id"].as_str().and_then(parse_uuid_text);
+                        if !ok || bn != name || bu != Some(uuid) || body["profile_properties"] != props_json(&props) {
+                            bad("issued-cookie-identity", format!("issued cookie (tag ok: {ok}) carries {body} but the vouched identity is ({name}, {uuid:032x}, {} properties)", props.len()));
+                        }
+                    }
+                }
+            }
+            if s.routing {
+                if !matches!(obs.packets.last(), Some((_, Pkt::Transfer { .. }))) {
+                    bad("authenticated-client-not-transferred", format!("packets {:?} result {:?}", obs.kinds(), obs.result));
+                }
+            } else if obs.has("Transfer") {
+                bad("transfer-without-target", "Transfer although no target".into());
+            }
+        }
+    }
+    // whenever the service is consulted it is asked with the connection's own secret and key, about the claim
+    for c in &auth_calls {
+        if let Call::Auth { secret, pubkey, name, uuid, .. } = c {
+            let enc_req_key = obs.packets.iter().find_map(|(_, p)| if let Pkt::EncryptionRequest { public_key, .. } = p { Some(public_key.clone()) } else { None });
+            let secret_expected: Vec<u8> = match enc_of(s, &[]) {
+                EncKind::SecretLen(n) => (0..n).map(|i| case.secret[i % 16]).collect(),
+                _ => case.secret.to_vec(),
+            };
+            if *secret != secret_expected {
+                bad("authentication-asked-with-other-secret", format!("service asked with secret {} but the client sent {}", common::hex(secret), common::hex(&secret_expected)));
+            }
+            if Some(pubkey.clone()) != enc_req_key {
+                bad("authentication-asked-with-other-key", "public key passed to the service differs from the one in the Encryption Request".into());
+            }
+            if *name != cn || *uuid != cu {
+                bad("authentication-asked-about-other-user", format!("service asked about ({name}, {uuid:032x}), the client claimed ({cn}, {cu:032x})"));
+            }
+        }
+    }
+    v
+}
+
+fn specs(thorough: bool) -> Vec<Spec> {
+    let intents = ["login", "login-secret", "transfer-nosecret", "transfer-nocookie", "transfer-cookie"];
+    let mut encs: Vec<String> = ["honest", "wrong-token", "stale-token", "other-key", "secret-garbage", "token-garbage"].iter().map(|s| s.to_string()).collect();
+    for n in [0usize, 1, 127, 128, 129, 256] {
+        encs.push(format!("garbage-{n}"));
+    }
+    for n in [0usize, 15, 17, 32] {
+        encs.push(format!("secret-len-{n}"));
+    }
+    for n in [0usize, 1, 31] {
+        encs.push(format!("token-prefix-{n}"));
+    }
+    for n in [1usize, 32] {
+        encs.push(format!("token-extended-{n}"));
+    }
+    let verdicts = ["claim", "other-name", "other-uuid", "props-1", "props-2", "all-differ", "err"];
+    let claims: Vec<&str> = if thorough { vec!["ascii", "unicode", "nil-uuid"] } else { vec!["ascii"] };
+    let mut out = vec![];
+    for intent in intents {
+        for enc in &encs {
+            for verdict in verdicts {
+                for routing in [true, false] {
+                    for claim in &claims {
+                        out.push(Spec { intent: intent.into(), enc: enc.clone(), verdict: verdict.into(), routing, claim: claim.to_string() });
+                    }
+                }
+            }
+        }
+    }
+    out
+}
+
+/// a token issued on another (completed) connection
+fn stale_token() -> Vec<u8> {
+    let mut c = Case::default();
+    c.script = Login::default().steps();
+    let obs = crate::sim::run(&c);
+    obs.token.unwrap_or_else(|| common::machinery("C01: could not obtain a token from a first connection"))
+}
+
+pub fn run(cli: Cli) -> ! {
+    let rep = Report::new("C01", cli.tier, "model_checking");
+    let stale = stale_token();
+    if let Some(case) = cli.replay.clone() {
+        let s: Spec = serde_json::from_value(case["spec"].clone()).unwrap_or_else(|e| common::machinery(&format!("bad replay: {e}")));
+        let c = build(&s, &stale);
+        let obs = crate::sim::run(&c);
+        let obs2 = crate::sim::run(&build(&s, &stale));
+        if obs.kinds() != obs2.kinds() || obs.result.kind() != obs2.result.kind() {
+            common::machinery("two replays of the same case differ");
+        }
+        println!("spec: {}", serde_json::to_string(&s).unwrap());
+        println!("expected identity: {:?}", expected_identity(&s).map(|(n, u, p)| (n, format!("{u:032x}"), p.len())));
+        println!("observed: {}", serde_json::to_string_pretty(&obs.to_json()).unwrap());
+        for (k, t) in judge(&s, &c, &obs) {
+            rep.violation(Violation { key: k, text: t, replay: case.clone(), weight: 0 });
+        }
+        rep.set("states", json!(1));
+        rep.set("transitions", json!(obs.packets.len().max(1)));
+        rep.set("traces_validated_against_impl", json!(1));
+        rep.finish();
+    }
+    let all = specs(cli.tier.thorough());
+    let distinct: Mutex<HashSet<String>> = Mutex::new(HashSet::new());
+    let admitted = AtomicU64::new(0);
+    let refused = AtomicU64::new(0);
+    let transitions = AtomicU64::new(0);
+    par_for(all.len(), |i| {
+        let s = &all[i];
+        let case = build(s, &stale);
+        let obs = crate::sim::run(&case);
+        transitions.fetch_add(obs.packets.len() as u64 + obs.calls.len() as u64 + 1, Ordering::Relaxed);
+        if obs.has("LoginSuccess") {
+            admitted.fetch_add(1, Ordering::Relaxed);
+        } else {
+            refused.fetch_add(1, Ordering::Relaxed);
+        }
+        distinct.lock().unwrap().insert(format!("{:?}|{}|{:?}", obs.kinds(), obs.result.kind(), obs.calls.iter().map(|c| c.kind()).collect::<Vec<_>>()));
+        for (k, t) in judge(s, &case, &obs) {
+            rep.violation(Violation { key: k, text: format!("{t}; spec {}", serde_json::to_string(s).unwrap()), replay: json!({"spec": s}), weight: i as u64 });
+        }
+    });
+    // determinism of the machinery: first and last case twice
+    for s in [&all[0], &all[all.len() - 1]] {
+        let (a, b) = (crate::sim::run(&build(s, &stale)), crate::sim::run(&build(s, &stale)));
+        if a.kinds() != b.kinds() || a.result.kind() != b.result.kind() || a.calls.len() != b.calls.len() {
+            common::machinery("two replays of the same case differ");
+        }
+    }
+    let d = distinct.lock().unwrap().len() as u64;
+    rep.require("admitted connections", admitted.load(Ordering::Relaxed), 50);
+    rep.require("refused connections", refused.load(Ordering::Relaxed), 50);
+    rep.require("distinct observations", d, 8);
+    rep.set("states", json!(all.len()));
+    rep.set("transitions", json!(transitions.load(Ordering::Relaxed)));
+    rep.set("traces_validated_against_impl", json!(all.len()));
+    rep.set("evaluations", json!(all.len()));
+    rep.set("distinct_nontrivial", json!(d));
+    rep.set("admitted", json!(admitted.load(Ordering::Relaxed)));
+    rep.set("refused", json!(refused.load(Ordering::Relaxed)));
+    rep.set("exhaustive", json!(true));
+    rep.set("rule", json!("full product intent(5) x encryption response(21) x authentication verdict(7) x routing(2) [x claimed identity shape(3) in thorough]; one connection per element plus one prior connection that supplies the stale token; a state is the script reaching it"));
+    rep.sample(json!({"spec": all[0]}));
+    rep.sample(json!({"spec": Spec { intent: "transfer-cookie".into(), enc: "honest".into(), verdict: "err".into(), routing: true, claim: "ascii".into() }, "expect": "admitted as the cookie's identity, service not called"}));
+    rep.sample(json!({"spec": Spec { intent: "login".into(), enc: "token-prefix-1".into(), verdict: "claim".into(), routing: true, claim: "ascii".into() }, "expect": "nothing granted"}));
+    rep.assume("RSA, AES, HMAC crates are trusted primitives (the client side uses the rsa crate to encrypt; CFB8 and HMAC are re-implemented)");
+    rep.assume("'every client byte stream' is covered as every script over the stated alphabet; arbitrary byte noise is C04's subject");
+    rep.finish()
 }
